@@ -40,6 +40,7 @@ func CallConcurrently(ctx context.Context, fns ...CallConcurrentlyFunc) error {
 	}
 
 	var waitCh <-chan struct{}
+	var started int
 	bcast.HoldLock(func(broadcast func(), getWaitCh func() <-chan struct{}) {
 		waitCh = getWaitCh()
 		for _, fn := range fns {
@@ -47,10 +48,11 @@ func CallConcurrently(ctx context.Context, fns ...CallConcurrentlyFunc) error {
 				continue
 			}
 			running++
+			started++
 			go callFunc(fn)
 		}
 	})
-	if running == 0 {
+	if started == 0 {
 		return nil
 	}
 
